@@ -60,6 +60,7 @@ def run(ctx: RuleContext):
     # under the earlier leaves' labels must be gone with the structure name (C04's snapshot / restore clauses at the PyTree check site) --
     # otherwise the next alternative of a union is judged against `(Leaf 0 in structure T) n = 2` left by the failed one
     ctx.reuse("C16.8", _pytree_rollback, ctx, r)
+    ctx.sub(check_union_does_not_swallow_misuse, ctx)
 
 
 # ------------------------------------------------------------------------ C16.2
@@ -512,6 +513,35 @@ def check_every_leaf_visited(ctx, r, cg):
                 ctx.ok("C16.6", f.qualname, f"every iteration of the leaves loop passes `{leafvar}` to the leaf check before the next one starts")
     ctx.counters["leaves_loops"] = n_loops
     ctx.floor("C16.6", "leaves_loops", 1)
+
+
+def check_union_does_not_swallow_misuse(ctx):
+    """C16.9: the AnnotationError for a misplaced `?` must reach the caller also when the offending annotation is a *member of a union* leaf
+    type: the vendored typeguard tries the members one after another and moves on when one raises -- on TypeError only.  A broader handler
+    (`except Exception`) swallows AnnotationError: `PyTree[Float[A, "?n"] | int]` answers False instead of raising."""
+    m = ctx.model
+    cu = None
+    for q, f in m.functions.items():
+        if f.module.short.startswith("_typeguard") and f.name == "check_union":
+            cu = f
+    need(cu is not None, "C16.9: the vendored typeguard's check_union was not found")
+    ctx.saw(cu)
+    n = 0
+    for t in ast.walk(cu.node):
+        if isinstance(t, ast.Try):
+            for h in t.handlers:
+                n += 1
+                names = [] if h.type is None else [norm(x) for x in (h.type.elts if isinstance(h.type, ast.Tuple) else [h.type])]
+                broad = h.type is None or any(x in ("Exception", "BaseException") for x in names)
+                reraises = h.body and isinstance(h.body[-1], ast.Raise) and h.body[-1].exc is None
+                if broad and not reraises:
+                    ctx.bad("C16.9", cu, h, f"check_union moves on to the next member on `except {', '.join(names) or ''}`: an AnnotationError raised by a member (a `?` axis outside a structured "
+                            "PyTree, an ambiguous nesting) is swallowed, so the misuse is answered with False / accepted by another member instead of being reported",
+                            construct="check_union swallows AnnotationError")
+                else:
+                    ctx.ok("C16.9", cu.qualname, f"moves on to the next union member on `{', '.join(names)}` only")
+    ctx.counters["union_handlers"] = n
+    ctx.floor("C16.9", "union_handlers", 1)
 
 
 def _pytree_rollback(ctx, r):
